@@ -200,6 +200,99 @@ example : ∃ out, serializeObjs ex4_re = .ok out ∧
     ⟨(by show (_ : Nat) < 65536; decide), ⟨⟨by decide, by decide⟩, rfl, fun h => absurd h (by decide)⟩, trivial, trivial⟩
     (fun o t h => by injection h with h1 _; injection h1 with h1; subst h1; rfl)
 
+/-! #### more accepted byte strings through `c03_all_net` (the parsed stacks are what `parseChain` returns: `rfl`) -/
+
+/-- EthernetII / MPLS (bottom of stack) / IP / UDP / RawPDU: the label dispatches on the version nibble; 11 bytes of
+    Ethernet padding cut off by the IP total length -/
+def exA_bytes : Bytes :=
+  [1, 2, 3, 4, 5, 6, 7, 8, 9, 10, 11, 12, 136, 71, 18, 52, 81, 64, 69, 0, 0, 31, 18, 52, 0, 0, 64, 17, 84, 152, 10,
+   0, 0, 1, 10, 0, 0, 2, 4, 210, 0, 53, 0, 11, 214, 198, 9, 8, 7, 0, 0, 0, 0, 0, 0, 0, 0, 0, 0, 0]
+def exA_os : List AnyObj :=
+  [AnyObj.l2 (L2.Obj.eth { dst := [1, 2, 3, 4, 5, 6], src := [7, 8, 9, 10, 11, 12], ptype := 34887 }),
+   AnyObj.l2 (L2.Obj.mpls { labelHigh := 4660, b2 := 81, ttl := 64 }),
+   AnyObj.ip (Ip.Obj.ip { version := 4, ihl := 5, tos := 0, totLen := 31, id := 4660, fragOff := 0, ttl := 64, protocol := 17, check := 21656, src := [10, 0, 0, 1], dst := [10, 0, 0, 2], opts := [] }),
+   AnyObj.tr (Transport.Obj.udp { sport := 1234, dport := 53, len := 11, check := 54982 }),
+   AnyObj.raw [9, 8, 7]]
+example : parseChain (exA_bytes.length + 2) "EthernetII" exA_bytes = .ok exA_os := rfl
+example : ∃ out, serializeObjs exA_os = .ok out ∧
+    ∃ os', parseChain (out.length + 2) "EthernetII" out = .ok os' ∧ ViewEqAll 0 exA_os os' ∧
+      (splitRaw os').2 = (splitRaw exA_os).2 :=
+  c03_all_net "EthernetII" exA_bytes exA_os (by decide) rfl
+    ⟨trivial, trivial, (by show (_ : Nat) < 65536; decide), trivial, trivial, trivial⟩
+    (fun o t h => by cases h) ⟨_, List.mem_cons_of_mem _ (List.mem_cons_of_mem _ List.mem_cons_self), rfl⟩
+
+/-- IP / IPSecAH / UDP / RawPDU: next-header derived from the inner class (the UDP checksum is only computed directly
+    inside IP / IPv6) -/
+def exB_bytes : Bytes :=
+  [69, 0, 0, 50, 18, 52, 0, 0, 64, 51, 84, 99, 10, 0, 0, 1, 10, 0, 0, 2, 17, 3, 0, 0, 0, 0, 1, 0, 0, 0, 0, 5, 1, 2,
+   3, 4, 5, 6, 7, 8, 4, 210, 0, 53, 0, 10, 0, 0, 1, 2]
+def exB_os : List AnyObj :=
+  [AnyObj.ip (Ip.Obj.ip { version := 4, ihl := 5, tos := 0, totLen := 50, id := 4660, fragOff := 0, ttl := 64, protocol := 51, check := 21603, src := [10, 0, 0, 1], dst := [10, 0, 0, 2], opts := [] }),
+   AnyObj.ip (Ip.Obj.ah { nextHeader := 17, length := 3, reserved := [0, 0], spi := 256, seq := 5, icv := [1, 2, 3, 4, 5, 6, 7, 8] }),
+   AnyObj.tr (Transport.Obj.udp { sport := 1234, dport := 53, len := 10, check := 0 }),
+   AnyObj.raw [1, 2]]
+example : parseChain (exB_bytes.length + 2) "IP" exB_bytes = .ok exB_os := rfl
+example : ∃ out, serializeObjs exB_os = .ok out ∧
+    ∃ os', parseChain (out.length + 2) "IP" out = .ok os' ∧ ViewEqAll 0 exB_os os' ∧
+      (splitRaw os').2 = (splitRaw exB_os).2 :=
+  c03_all_net "IP" exB_bytes exB_os (by decide) rfl
+    ⟨(by show (_ : Nat) < 65536; decide), trivial, trivial, trivial, trivial⟩
+    (fun o t h => by injection h with h1 _; injection h1 with h1; subst h1; rfl) ⟨_, List.mem_cons_self, rfl⟩
+
+/-- IP / IPSecESP / RawPDU -/
+def exC_bytes : Bytes :=
+  [69, 0, 0, 32, 18, 52, 0, 0, 64, 50, 84, 118, 10, 0, 0, 1, 10, 0, 0, 2, 0, 0, 2, 0, 0, 0, 0, 9, 170, 187, 204,
+   221]
+def exC_os : List AnyObj :=
+  [AnyObj.ip (Ip.Obj.ip { version := 4, ihl := 5, tos := 0, totLen := 32, id := 4660, fragOff := 0, ttl := 64, protocol := 50, check := 21622, src := [10, 0, 0, 1], dst := [10, 0, 0, 2], opts := [] }),
+   AnyObj.ip (Ip.Obj.esp { spi := 512, seq := 9 }),
+   AnyObj.raw [170, 187, 204, 221]]
+example : parseChain (exC_bytes.length + 2) "IP" exC_bytes = .ok exC_os := rfl
+example : ∃ out, serializeObjs exC_os = .ok out ∧
+    ∃ os', parseChain (out.length + 2) "IP" out = .ok os' ∧ ViewEqAll 0 exC_os os' ∧
+      (splitRaw os').2 = (splitRaw exC_os).2 :=
+  c03_all_net "IP" exC_bytes exC_os (by decide) rfl
+    ⟨(by show (_ : Nat) < 65536; decide), trivial, trivial, trivial⟩
+    (fun o t h => by injection h with h1 _; injection h1 with h1; subst h1; rfl) ⟨_, List.mem_cons_self, rfl⟩
+
+/-- EthernetII / IPv6 (no extension headers) / TCP with options (pseudo-header checksum over the IPv6 addresses) -/
+def exD_bytes : Bytes :=
+  [1, 2, 3, 4, 5, 6, 7, 8, 9, 10, 11, 12, 134, 221, 96, 0, 0, 0, 0, 28, 6, 64, 0, 0, 0, 0, 0, 0, 0, 0, 0, 0, 0, 0,
+   0, 0, 0, 1, 0, 0, 0, 0, 0, 0, 0, 0, 0, 0, 0, 0, 0, 0, 0, 2, 156, 64, 0, 80, 0, 0, 0, 0, 0, 0, 0, 0, 112, 0, 127,
+   166, 103, 225, 0, 0, 2, 4, 5, 180, 1, 3, 3, 7]
+def exD_os : List AnyObj :=
+  [AnyObj.l2 (L2.Obj.eth { dst := [1, 2, 3, 4, 5, 6], src := [7, 8, 9, 10, 11, 12], ptype := 34525 }),
+   AnyObj.ip6 (Ip6.Obj.ip6 { version := 6, trafficClass := 0, flowLabel := 0, payloadLength := 28, nextHeader := 6, hopLimit := 64, src := [0, 0, 0, 0, 0, 0, 0, 0, 0, 0, 0, 0, 0, 0, 0, 1], dst := [0, 0, 0, 0, 0, 0, 0, 0, 0, 0, 0, 0, 0, 0, 0, 2], headers := [], finalNext := 6 }),
+   AnyObj.tr (Transport.Obj.tcp { sport := 40000, dport := 80, seq := 0, ackSeq := 0, doff := 7, res1 := 0, flags8 := 0, window := 32678, check := 26593, urgPtr := 0, opts := [{ code := 2, lenField := 2, data := [5, 180] }, { code := 1, lenField := 0, data := [] }, { code := 3, lenField := 1, data := [7] }] })]
+example : parseChain (exD_bytes.length + 2) "EthernetII" exD_bytes = .ok exD_os := rfl
+example : ∃ out, serializeObjs exD_os = .ok out ∧
+    ∃ os', parseChain (out.length + 2) "EthernetII" out = .ok os' ∧ ViewEqAll 0 exD_os os' ∧
+      (splitRaw os').2 = (splitRaw exD_os).2 :=
+  c03_all_net "EthernetII" exD_bytes exD_os (by decide) rfl
+    ⟨trivial, (by show (_ : Nat) < 65536; decide), trivial, trivial⟩
+    (fun o t h => by cases h) ⟨_, List.mem_cons_of_mem _ List.mem_cons_self, rfl⟩
+
+/-- SLL / Dot1Q / IP / IP (IP-in-IP) / ICMP echo request / RawPDU -/
+def exE_bytes : Bytes :=
+  [0, 0, 0, 1, 0, 6, 1, 2, 3, 4, 5, 6, 0, 0, 129, 0, 32, 9, 8, 0, 69, 0, 0, 49, 18, 52, 0, 0, 64, 4, 84, 147, 10, 0,
+   0, 1, 10, 0, 0, 2, 69, 0, 0, 29, 18, 52, 0, 0, 64, 1, 84, 170, 10, 0, 0, 1, 10, 0, 0, 2, 8, 0, 75, 45, 171, 205,
+   0, 5, 1]
+def exE_os : List AnyObj :=
+  [AnyObj.l2 (L2.Obj.sll { packetType := 0, lladdrType := 1, lladdrLen := 6, address := [1, 2, 3, 4, 5, 6, 0, 0], protocol := 33024 }),
+   AnyObj.l2 (L2.Obj.dot1q { priority := 1, cfi := 0, id := 9, ptype := 2048, appendPadding := false }),
+   AnyObj.ip (Ip.Obj.ip { version := 4, ihl := 5, tos := 0, totLen := 49, id := 4660, fragOff := 0, ttl := 64, protocol := 4, check := 21651, src := [10, 0, 0, 1], dst := [10, 0, 0, 2], opts := [] }),
+   AnyObj.ip (Ip.Obj.ip { version := 4, ihl := 5, tos := 0, totLen := 29, id := 4660, fragOff := 0, ttl := 64, protocol := 1, check := 21674, src := [10, 0, 0, 1], dst := [10, 0, 0, 2], opts := [] }),
+   AnyObj.icmp (Icmp.Obj.icmp { type := 8, code := 0, check := 19245, un := [171, 205, 0, 5], orig := [0, 0, 0, 0], recv := [0, 0, 0, 0], trans := [0, 0, 0, 0], ext := { vr := 8192, ck := 0, exts := [] } }),
+   AnyObj.raw [1]]
+example : parseChain (exE_bytes.length + 2) "SLL" exE_bytes = .ok exE_os := rfl
+example : ∃ out, serializeObjs exE_os = .ok out ∧
+    ∃ os', parseChain (out.length + 2) "SLL" out = .ok os' ∧ ViewEqAll 0 exE_os os' ∧
+      (splitRaw os').2 = (splitRaw exE_os).2 :=
+  c03_all_net "SLL" exE_bytes exE_os (by decide) rfl
+    ⟨trivial, trivial, (by show (_ : Nat) < 65536; decide), (by show (_ : Nat) < 65536; decide),
+     ⟨⟨by decide, by decide⟩, rfl, fun h => absurd h (by decide)⟩, trivial, trivial⟩
+    (fun o t h => by cases h) ⟨_, List.mem_cons_of_mem _ (List.mem_cons_of_mem _ List.mem_cons_self), rfl⟩
+
 /-! #### the hypotheses matter -/
 
 /-- an IP object that claims to carry TCP in front of opaque bytes is not a packet a parser can give back: the re-parse
